@@ -103,6 +103,10 @@ def discharge(F, f, b, kind, detail, defs):
         why = _offset_plus_char_len(F, f, b, t, defs)
         if why:
             return why
+    if kind == "api" and detail == "String::drain":
+        why = _drain_of_a_tested_prefix(F, f, b, t, defs)
+        if why:
+            return why
     if kind == "api" and detail == "Vec::remove":
         why = _remove_at_found_position(F, f, b, t, defs)
         if why:
@@ -232,6 +236,53 @@ def _remove_at_found_position(F, f, b, t, defs):
             if oa.get("k") == "rv" and oa["rv"]["k"] == "ref" and oa["rv"].get("mut") and root(a) == r1:
                 return None
     return "the index was just answered by %s over the same vector and nothing between the search and the removal changes it" % nm
+
+
+def _drain_of_a_tested_prefix(F, f, b, t, defs):
+    """`text.drain(..k)` with a constant k behind a test that the text starts with a constant pattern of exactly k bytes
+    (`starts_with(c)` true / `strip_prefix(c)` Some): k is in bounds and on a character boundary"""
+    if len(t["args"]) < 2:
+        return None
+    o = defs.origin_op(t["args"][1])
+    if o.get("k") != "agg" or not str(o["rv"].get("adt") or "").endswith("RangeTo") or len(o["rv"].get("ops") or []) != 1:
+        return None
+
+    def const_of(op):
+        k = op.get("k") if isinstance(op, dict) else None
+        if not isinstance(k, dict):
+            oo = defs.origin_op(op) if isinstance(op, dict) else {}
+            k = oo.get("c") if oo.get("k") == "const" else None
+        return k if isinstance(k, dict) else None
+    ke = const_of(o["rv"]["ops"][0])
+    if ke is None or "bits" not in ke:
+        # `'\u{feff}'.len_utf8()` of a constant character
+        oe = defs.origin_op(o["rv"]["ops"][0])
+        if oe.get("k") == "call" and (callee(oe["t"]) or callee_def(oe["t"]) or "").endswith("char::len_utf8"):
+            kc = const_of(oe["t"]["args"][0])
+            if kc is not None and kc.get("ty") == "char":
+                ke = {"bits": len(chr(int(kc["bits"])).encode("utf-8"))}
+    if ke is None or "bits" not in ke:
+        return None
+    end = int(ke["bits"])
+    for g in FL.gates(F, f, [b], defs):
+        c = g.get("callee") or ""
+        ct = g.get("call_t")
+        if ct is None or len(ct["args"]) < 2:
+            continue
+        ok_pol = (c.endswith("str::starts_with") and g["allowed"] == [True]) or (c.endswith("str::strip_prefix") and g["allowed"] in (["Some"], [True]))
+        if not ok_pol:
+            continue
+        kp = const_of(ct["args"][1])
+        if kp is None:
+            continue
+        n = None
+        if kp.get("ty") == "char" and "bits" in kp:
+            n = len(chr(int(kp["bits"])).encode("utf-8"))
+        elif isinstance(kp.get("str"), str):
+            n = len(kp["str"].encode("utf-8"))
+        if n == end:
+            return "the %d bytes drained are the constant prefix the text was just tested to start with" % end
+    return None
 
 
 def _counter_increment(F, f, b, t, defs):
